@@ -85,7 +85,9 @@ func (r *Run) checkJSONError(endpoint string, res *Resp, want string, status int
 	if !strings.Contains(res.Header.Get("Content-Type"), "application/json") {
 		r.violate("C20", "malformed-error", endpoint+":content-type", "%s error response has Content-Type %q", endpoint, res.Header.Get("Content-Type"))
 	}
-	if got, _ := m["error"].(string); got != want {
+	if got, _ := m["error"].(string); got == "error" {
+		r.violate("C20", "non-rfc-error-code", endpoint, "%s error response carries the catch-all code \"error\" (HTTP %d): an internal, non-OAuth error was written to the client: %s", endpoint, res.Status, truncate(res.Body, 200))
+	} else if got != want {
 		r.violate("C20", "malformed-error", endpoint, "%s error response carries error=%q, the library raised %q", endpoint, got, want)
 	}
 	if res.Status != status {
@@ -196,11 +198,25 @@ func (r *Run) checkAuthorizeResponse(cs *ClientSpec, q url.Values, res *Resp, pu
 			return
 		}
 	}
+	if target == nil && res.Err != nil {
+		r.probe("authz-direct-error")
+	}
 	if target != nil {
 		r.stat("authz-redirects")
+		if res.FormPost != nil {
+			r.probe("authz-redirect:form_post")
+		} else if len(res.Fragment) > 0 {
+			r.probe("authz-redirect:fragment")
+		} else {
+			r.probe("authz-redirect:query")
+		}
 		var registered []string
 		if cs != nil {
 			registered = cs.RedirectURIs
+		}
+		if res.FormPost != nil && res.FormAction == "#ZgotmplZ" {
+			r.violate("C11", "redirect-to-unregistered-uri", "form_post-action-sanitised", "the form_post page posts to %q instead of the validated redirect URI %q (html/template replaced the non-http(s) URL)", res.FormAction, requested)
+			return
 		}
 		if cs == nil || !targetRegistered(target, registered) {
 			r.violate("C11", "redirect-to-unregistered-uri", "", "the authorization endpoint redirected to %q (requested redirect_uri %q, registered %v)", target.String(), requested, registered)
@@ -254,7 +270,9 @@ func (r *Run) checkAuthorizeSuccess(st Step, cs *ClientSpec, g *Grant, res *Resp
 	if !okRT {
 		r.violate("C13", "unregistered-response-type", "", "client %s (registered %v) was answered for response_type %q", cs.ID, regRT, g.Params["response_type"])
 	}
-	if (p.Get("access_token") != "" || p.Get("id_token") != "") && !has(cs.GrantTypes, "implicit") {
+	// an ID token delivered next to a code (hybrid flow) is not treated as an implicit-grant token by the library; the statement
+	// does not single it out either => only access tokens, and ID tokens of the pure implicit flow, are judged
+	if (p.Get("access_token") != "" || (p.Get("id_token") != "" && !has(rtype, "code"))) && !has(cs.GrantTypes, "implicit") {
 		r.violate("C13", "tokens-without-implicit-grant", "", "client %s lacks the implicit grant but received tokens from the authorization endpoint", cs.ID)
 	}
 	if len(g.State) < r.minEntropy() {
@@ -307,6 +325,7 @@ func (r *Run) minEntropy() int {
 
 // checkConfinement (C12): no flow accepts a requested scope/audience the registration does not cover; nothing granted beyond it.
 func (r *Run) checkConfinement(flow string, cs *ClientSpec, g *Grant, desc string) {
+	r.probe("confine:" + flow)
 	for _, s := range g.Scopes {
 		if RefScopeMatch(r.W.K.ScopeStrategy, cs.Scopes, s) == No {
 			r.violate("C12", "scope-outside-registration", flow, "%s: scope %q was accepted for client %s whose registration allows %v (strategy %q)", desc, s, cs.ID, cs.Scopes, r.W.K.ScopeStrategy)
@@ -365,6 +384,7 @@ func (r *Run) checkIDToken(idc *Cred, g *Grant, cs *ClientSpec, atVal, codeVal s
 		return
 	}
 	r.stat("idtoken-checked")
+	r.probe("idtoken-checked:" + map[bool]string{true: "refresh", false: idc.Endpoint}[isRefresh])
 	keyName := r.W.K.IDKey
 	if keyName == "" {
 		keyName = "rsa0"
@@ -412,7 +432,13 @@ func (r *Run) checkIDToken(idc *Cred, g *Grant, cs *ClientSpec, atVal, codeVal s
 			r.violate("C14", "id-token-claims", "exp", "exp %s is not in the future (now %s) (%s)", exp.UTC().Format(time.RFC3339), now.UTC().Format(time.RFC3339), where)
 		}
 		if g.PresetIDExp.IsZero() && idc.Life > 0 && exp.After(now.Add(idc.Life+Tol)) {
-			r.violate("C14", "id-token-claims", "exp", "exp %s lies beyond the configured lifetime %s (%s)", exp.UTC().Format(time.RFC3339), idc.Life, where)
+			key := "exp"
+			for _, o := range g.Creds {
+				if o.Kind == "id" && o != idc && o.Endpoint == "authorize" && idc.Endpoint == "token" && !isRefresh {
+					key = "exp:hybrid-inherits-expiry-of-authorize-endpoint-id-token"
+				}
+			}
+			r.violate("C14", "id-token-claims", key, "exp %s lies beyond the configured lifetime %s (%s)", exp.UTC().Format(time.RFC3339), idc.Life, where)
 		}
 		if g.PresetIDExp.IsZero() && idc.Life > 0 && !isRefresh && idc.Endpoint == "authorize" && exp.Before(now.Add(idc.Life-Tol)) {
 			r.violate("C07", "id-token-lifetime", "", "ID token exp %s is shorter than the configured lifetime %s (%s)", exp.Sub(now), idc.Life, where)
